@@ -24,8 +24,8 @@ DFailed(d, r) ==
    \cup (IF /\ Failed(d, r, MuxObs(d, r, TRUE, TRUE)) = {}
             /\ HasOverride(d) \/ FailedFor("l", d, r, LegacyObs(d, r, TRUE, TRUE, TRUE)) = {}
          THEN {} ELSE {"RepairedRefines"})
-   \cup (IF /\ Classified(d, r, "g", MuxObs(d, r, FALSE, FALSE))
-            /\ Classified(d, r, "l", LegacyObs(d, r, FALSE, FALSE, FALSE))
+   \cup (IF /\ Classified(d, r, "g", CurMuxObs(d, r))
+            /\ Classified(d, r, "l", CurLegacyObs(d, r))
          THEN {} ELSE {"PinnedClassified"})
 
 DesignOK ==
@@ -36,6 +36,6 @@ DesignOK ==
 
 PinnedRefines ==
    Complete => LET d == TheDoc IN
-               \A r \in Requests(d) : /\ Failed(d, r, MuxObs(d, r, FALSE, FALSE)) = {}
-                                      /\ FailedFor("l", d, r, LegacyObs(d, r, FALSE, FALSE, FALSE)) = {}
+               \A r \in Requests(d) : /\ Failed(d, r, CurMuxObs(d, r)) = {}
+                                      /\ FailedFor("l", d, r, CurLegacyObs(d, r)) = {}
 =============================================================================
